@@ -30,6 +30,9 @@ pub struct Cfg {
     pub ef_construction: usize,
     pub ef_search: usize,
     pub max_layers: u8,
+    /// `HnswConfig::scale_factor` (None = 1.0); > 1 makes upper layers denser
+    #[serde(default)]
+    pub scale_factor: Option<f64>,
 }
 
 impl Cfg {
@@ -43,6 +46,7 @@ impl Cfg {
             ef_construction: 3,
             ef_search: 2,
             max_layers: 4,
+            scale_factor: None,
         }
     }
     /// A roomier graph: everything fits in the beams, so search is exact on
@@ -64,13 +68,13 @@ impl Cfg {
             ef_construction: self.ef_construction,
             ef_search: self.ef_search,
             distance_metric: self.metric,
-            scale_factor: None,
+            scale_factor: self.scale_factor,
             select_neighbors_strategy: self.strategy,
             reconnect_on_delete: self.reconnect_on_delete,
         }
     }
     pub fn label(&self) -> String {
-        format!(
+        let mut l = format!(
             "d{}/{:?}/{:?}/{}/M{}efc{}efs{}",
             self.dim,
             self.metric,
@@ -79,7 +83,21 @@ impl Cfg {
             self.max_connections,
             self.ef_construction,
             self.ef_search
-        )
+        );
+        // the two standard regimes keep their short label
+        if !((self.max_connections == 2 && self.max_layers == 4) || (self.max_connections == 4 && self.max_layers == 3)) || self.scale_factor.is_some() {
+            l.push_str(&format!("/L{}", self.max_layers));
+        }
+        if let Some(sf) = self.scale_factor {
+            l.push_str(&format!("/sf{sf}"));
+        }
+        l
+    }
+    /// Tight regime with a small layer cap (and optionally a scale factor that
+    /// makes high layer draws frequent): the layer generator's upper clamp is
+    /// actually reached within a handful of inserts.
+    pub fn layer_capped(&self, max_layers: u8, scale_factor: Option<f64>) -> Cfg {
+        Cfg { max_layers, scale_factor, ..self.clone() }
     }
     pub fn new_index(&self) -> HnswIndex {
         HnswIndex::new("c12".to_string(), Some(self.hnsw_config()))
@@ -100,6 +118,21 @@ pub fn all_cfgs(dims: &[usize], roomy: bool) -> Vec<Cfg> {
                     }
                 }
             }
+        }
+    }
+    out
+}
+
+/// Configurations whose layer cap is reachable: tight regime x
+/// (max_layers, scale_factor) pairs.
+pub fn layer_cap_cfgs(dims: &[usize], metrics: &[DistanceMetric], caps: &[(u8, Option<f64>)]) -> Vec<Cfg> {
+    let mut out = Vec::new();
+    for c in all_cfgs(dims, false) {
+        if !metrics.contains(&c.metric) {
+            continue;
+        }
+        for (l, sf) in caps {
+            out.push(c.layer_capped(*l, *sf));
         }
     }
     out
